@@ -3,14 +3,15 @@ import re
 
 from hypothesis import strategies as st
 
-from lib.engine import R, V, enum_part, hyp_part
+from lib.engine import R, V, enum_part, hyp_part, concurrent_part
 
 ID = 'C20'
 RULE = ('alternatives are enumerated from EnglishChoice.TrueRegex / FalseRegex (word alternation + emoji written as single code points); '
         'exhaustive part: every alternative x 4 letter-case variants x 40 fixed surroundings; Hypothesis part: random per-letter case, '
         'blanks/punctuation/filler words around, several blanks inside "not ok", neutral strings from a closed pool, strings with both '
         'polarities; every case under one of the English culture codes en-us, en-gb, en-au, en-in, en-ca, EN-US, en (all are served the English lists); '
-        'non-trivial = alternative not at position 0, or mixed/upper case, or both polarities present; distinct = distinct (culture code, query)')
+        'non-trivial = alternative not at position 0, or mixed/upper case, or both polarities present; distinct = distinct (culture code, query); concurrent part: the same generated cases evaluated 2-4 at a time on simultaneous threads (switch interval 10 us), '
+        'cases that are clean alone must stay clean')
 ASSUMPTIONS = ['filler words are a static list containing no alternative as a token',
                'the emoji alternatives are those the Python regex can match as single code points (U+1F44C, U+1F44E, U+1F590, U+270B)']
 
@@ -180,4 +181,5 @@ def parts(tier, seed):
     return [
         enum_part('alternatives-x-surroundings', exhaustive_cases, run_single, exhaustive=True),
         hyp_part('random', random_cases, run_any, 2000 if tier == 'quick' else 100000, min_shard=100),
+        concurrent_part('concurrent', random_cases, run_any, 400 if tier == 'quick' else 10000, min_shard=50),
     ]
